@@ -143,6 +143,9 @@ func (s *Sys) deliverRecv(dst *world.Chain, signer world.Account, msgs []sdk.Msg
 					if a.Code == 0 && (strings.Contains(t.Kind, "+callrevert") || strings.Contains(t.Kind, "+hookfail") || strings.Contains(t.Kind, "+agentbad")) {
 						add("C05", "failed-callback-acknowledged-as-success", fmt.Sprintf("recv %s (%s) on %s: the packet's call fails by construction (reverting call / failing post-transaction hook / nested send to an unknown chain) but the stored acknowledgement reports success", t.ID, t.Kind, short[dst.Name]))
 					}
+					if a.Code == 0 && strings.Contains(t.Kind, "+hookfail") {
+						add("C17", "remote-staking-call-whose-native-action-fails-acknowledged-as-success", fmt.Sprintf("recv %s (%s) on %s: the packet's call data calls Staking.delegate with a malformed validator; the native action fails, yet the acknowledgement reports success (the EVM side of the call was committed)", t.ID, t.Kind, short[dst.Name]))
+					}
 					if a.Code == 0 {
 						class += " exec-ok"
 					} else {
